@@ -975,6 +975,101 @@ def acq_case(c):
     return problems, obs
 
 
+# ---- (d) two wraps of one configuration that name the same archive file --------------------------------------------------
+# "never unpacked or used" is per wrap: the hash recorded in wrap B decides about B, whatever the same run already found
+# out about that file for wrap A (release tarballs of different projects are all called v1.0.tar.gz).
+def shared_members(x):
+    return [('meson.build', "project('w%s', version: '1.0')\nfs = import('fs')\nmessage('VERIF-SP|%s|' + fs.read('src.txt').strip() + '|')\n" % (x, x)),
+            ('src.txt', 'SHARED-SRC-%s\n' % x)]
+
+
+def shared_cases():
+    return [{'what': what, 'loc': loc, 'order': order} for what in ('source', 'patch') for loc in ('cache', 'packagefiles', 'primary')
+            for order in ('b', 'ab', 'ba')]
+
+
+def shared_case(c):
+    """File F (named by both wraps) holds A's archive; wa.wrap records its hash, wb.wrap records the hash of B's own archive."""
+    root, remote = fresh_root('shr'), fresh_root('rem')
+    what, loc = c['what'], c['loc']
+    files = {}
+    arch = {x: mk_tar(shared_members(x)) for x in 'ab'}
+    patch = {x: mk_tar([('w%s/patched-%s.txt' % (x, x), 'SHARED-PATCH-%s\n' % x)]) for x in 'ab'}
+    shared = arch['a'] if what == 'source' else patch['a']
+    fn = 'v1.0.tar'
+    for x in 'ab':
+        w = ['[wrap-file]', 'directory = w' + x, 'lead_directory_missing = true']
+        if what == 'source':
+            w += ['source_filename = ' + fn, 'source_hash = ' + sha(arch[x])]
+            if loc != 'packagefiles':       # a wrap without URL takes the file from subprojects/packagefiles
+                w += ['source_url = file://%s/%s' % (remote, fn if (loc == 'primary' and x == 'a') else 'missing-' + fn)]
+        else:
+            files[os.path.join(remote, 'src-%s.tar' % x)] = arch[x]
+            w += ['source_filename = src-%s.tar' % x, 'source_hash = ' + sha(arch[x]), 'source_url = file://%s/src-%s.tar' % (remote, x)]
+            w += ['patch_filename = ' + fn, 'patch_hash = ' + sha(patch[x])]
+            if loc != 'packagefiles':
+                w += ['patch_url = file://%s/%s' % (remote, fn if (loc == 'primary' and x == 'a') else 'missing-' + fn)]
+        files['subprojects/w%s.wrap' % x] = '\n'.join(w) + '\n'
+    if loc == 'primary':
+        files[os.path.join(remote, fn)] = shared
+    else:
+        files['subprojects/%s/%s' % ('packagecache' if loc == 'cache' else 'packagefiles', fn)] = shared
+    body = ["project('shared')"]
+    for x in c['order']:
+        body.append("sp%s = subproject('w%s', required: false)\nmessage('VERIF-FOUND|%s|@0@|'.format(sp%s.found()))" % (x, x, x, x))
+    files['meson.build'] = '\n'.join(body) + '\n'
+    mp.write_tree(root, {k: v for k, v in files.items() if not os.path.isabs(k)})
+    mp.write_tree('/', {k.lstrip('/'): v for k, v in files.items() if os.path.isabs(k)})
+    os.makedirs(os.path.join(root, 'subprojects', 'packagefiles'), exist_ok=True)
+    env = mp.base_env()
+    problems, obs = [], {'runs': []}
+    for run_no, bld in ((1, 'bld'), (2, 'bld2')):
+        r = mp.run_meson(setup_argv('default', [], bld), root, env=env, pre=pre_hook, timeout=120)
+        found = dict(re.findall(r'^Message: VERIF-FOUND\|(\w)\|(\w+)\|', r.out, re.M))
+        used = re.findall(r'Message: VERIF-SP\|(\w)\|([^|\n]*)\|', r.out)
+        wb = os.path.join(root, 'subprojects', 'wb')
+        wb_files = sorted(os.listdir(wb)) if os.path.isdir(wb) else None
+        obs['runs'].append({'found': found, 'subproject_messages': used, 'wb': wb_files})
+        tag = 'run%d' % run_no
+        if r.unhandled:
+            problems.append(('C10:shared:unhandled-exception', '%s: meson setup died with a Python traceback: %s' % (tag, r.out[-300:])))
+            continue
+        if sorted(found) != sorted(c['order']):
+            problems.append(('C10:shared:setup-aborted', '%s: meson setup failed outright although both subprojects are optional: %s' % (tag, r.out[-300:])))
+            continue
+        if 'a' in found and found['a'] != 'true':
+            problems.append(('C10:shared:good-refused', '%s: wa (recorded hash matches the file) was not configured' % tag))
+        if found['b'] == 'true':
+            problems.append(('C10:shared:accepted-unverified:' + what, '%s: wb configured although the SHA-256 of %s differs from the %s_hash recorded in wb.wrap '
+                             '(subproject messages %r)' % (tag, fn, what, used)))
+        if wb_files is not None:
+            problems.append(('C10:shared:%s' % ('source-unpacked-unverified' if what == 'source' else 'dir-left-after-failed-patch'),
+                             '%s: subprojects/wb exists (%s) although wb.wrap records another hash for %s' % (tag, wb_files[:5], fn)))
+        if any(x == 'b' or (x == 'a' and t != 'SHARED-SRC-a') for x, t in used):
+            problems.append(('C10:shared:wrong-content-used', '%s: subproject messages %r' % (tag, used)))
+    shutil.rmtree(root, ignore_errors=True)
+    shutil.rmtree(remote, ignore_errors=True)
+    return problems, obs
+
+
+def part_shared(ck, classes):
+    cases = shared_cases()
+    n_a_ok = 0
+    for (problems, obs), c in zip(pmap(shared_case, cases), cases):
+        n_a_ok += any(r['found'].get('a') == 'true' for r in obs['runs'])
+        classes.add(('shared', c['what'], c['loc'], c['order']))
+        seen = set()
+        for key, text in problems:
+            if key not in seen:
+                seen.add(key)
+                ck.violation(key, 'two wraps naming %s archive %s at %s, order %s: %s' % (c['what'], 'v1.0.tar', c['loc'], c['order'], text),
+                             {'part': 'shared', 'case': c, 'observed': obs})
+    ck.part('shared_archive_name', cases=len(cases), meson_runs=2 * len(cases), first_wrap_accepted_in=n_a_ok)
+    ck.require(n_a_ok >= 10 or ck.n_viol > 0, 'shared-archive part: the wrap whose hash matches was hardly ever accepted')
+    return len(cases), 2 * len(cases)
+
+
+
 def exc_class(c):
     if c['kind'] == 'step':
         return 'step-' + c['step']
@@ -1078,6 +1173,12 @@ def replay(ck):
         if obs['expect'] == 'unspecified':
             problems = [p for p in problems if p[0].startswith(('C10:acq:unhandled-exception', 'C10:acq:second-run-accepts', 'C10:acq:setup-aborted'))]
         sys.exit(1 if problems else 0)
+    if part == 'shared':
+        problems, obs = shared_case(d['case'])
+        print('case     :', d['case'])
+        print('observed :', json.dumps(obs['runs']))
+        print('problems :', problems)
+        sys.exit(1 if problems else 0)
     ck.internal('unknown replay file')
 
 
@@ -1110,6 +1211,12 @@ def main():
         evals += n - sk
         skipped += sk
         runs += r
+    if ck.want('shared'):
+        t0 = time.time()
+        n, r = part_shared(ck, classes)
+        ck.part('shared_archive_name', wall_s=round(time.time() - t0, 1))
+        evals += n
+        runs += r
     ck.assume('the decision function and the acquisition expectations are my transcription of docs/yaml/functions/dependency.yaml, '
               'Subprojects.md and Wrap-dependency-system-manual.md (sentences quoted in checks/c10.py)')
     ck.assume('system dependencies are pkg-config files (pkg-config 1.8.1 on PATH) in a private PKG_CONFIG_LIBDIR; projects have no language, --backend=none')
@@ -1126,7 +1233,8 @@ def main():
                    '(c) FAULT ENUMERATION: {source,patch} x {primary URL, fallback URL after missing/corrupt primary, package cache, packagefiles} x '
                    '{good, byte flipped, truncated, empty, different valid archive} x hash{right,wrong,absent where allowed} x wrap_mode{default,nodownload} '
                    'x driver{meson setup, meson subprojects download}, plus 7 step outcomes after a good fetch x 3 source locations; each followed by a '
-                   'listing of subprojects/ + package cache and a second meson setup. distinct_nontrivial = distinct (part, expected outcome, provider/'
+                   'listing of subprojects/ + package cache and a second meson setup. (d) two wraps of one configuration naming the same archive file '
+                   '(the file matches only the first wrap\'s hash) x {source,patch} x {cache,packagefiles,downloaded by the first} x order{b,ab,ba}. distinct_nontrivial = distinct (part, expected outcome, provider/'
                    'location) classes and distinct observed outcome vectors of lookup sequences' % ('{1.0,2.5}' if ck.thorough else '{2.5} (quick)'),
               exhaustive=True)
 
